@@ -237,6 +237,7 @@ theorem seq_step (ρ : Nat) (s : St) (e : Ev) (hI : Inv s) (hS : SeqInv ρ s)
   | loadMeta r => exact seq_loadMeta ρ s r hI hS hok
   | openFile r p => exact seq_openFile ρ s r p hI hS hok
   | release r => exact seq_release ρ s r hS hok
+  | warm r => exact seq_same ρ s _ hS (fun x => (rs_warm s r x).1) (fun x => (rs_warm s r x).2.1) rfl rfl
   | publish r => exact seq_publish ρ s r hS hok
   | create p b => exact seq_writer ρ s _ hS rfl rfl rfl
   | saveMeta f => exact seq_writer ρ s _ hS rfl rfl rfl
